@@ -233,7 +233,9 @@ CHECKS = {
              "skipping column-0 comment lines (typed corollaries load_<wrapper>_roundtrip for the six delimited wrappers), "
              "wrong column count / unparsable number raise ValueError naming the "
              "1-based row, blank lines are malformed rows, key/tempo single-line and weight-range rules, ragged and "
-             "pattern state machines; loaders compared bit-for-bit (struct.pack) from StringIO, path and open file.",
+             "pattern state machines; loaders compared bit-for-bit (struct.pack) from StringIO, path and open file. "
+             "All 11 loaders of mir_eval/io.py are regenerated from the source on every run (MirGen/IOLoad.lean) and proved "
+             "equal to the loader model for all texts, converters, delimiters and markers (Props/C20_GenIO.lean).",
         note="float(str)/repr(float) and Python's re are trusted; warnings are checked by the oracle only. The two findings (load_ragged_time_series(header=True) did not skip the header; load_patterns raised IndexError on a "
              "one-column data row) were repaired.",
         design="§5 C20"),
